@@ -84,6 +84,55 @@ class Program:
             L.append(o.line())
         return "\n".join(L) + "\n"
 
+    @classmethod
+    def from_text(cls, text, active_cpus=1):
+        """rebuild the static facts from executor syntax (replay files and corpus entries need no recipe)"""
+        P = cls()
+        P.cfg_active_cpus = active_cpus
+        P.open_tokens = []
+        for line in text.splitlines():
+            w = line.split()
+            if not w:
+                continue
+            if w[0] == "cfg":
+                for kv in w[1:]:
+                    k, v = kv.split("=")
+                    if k == "threads":
+                        P.nthreads = int(v)
+                    elif k == "burst":
+                        P.cfg.setdefault("burst", []).append(int(v))
+                    else:
+                        P.cfg[k] = int(v)
+            elif w[0] == "q":
+                v = [int(x) for x in w[1:]] + [0, -1]
+                P.queue(v[0], v[1], v[2], flags=v[3], width=v[4], qos=v[5], relpri=v[6], chain=v[7])
+            elif w[0] == "g":
+                P.groups.append(int(w[1]))
+            elif w[0] == "s":
+                P.sems[int(w[1])] = int(w[2])
+            elif w[0] == "k":
+                P.keys.append((int(w[1]), int(w[2]), int(w[3])))
+            elif w[0] == "op":
+                v = [int(x) for x in w[4:]] + [0] * 5
+                o = Op(int(w[1]), int(w[2]), w[3], v[0], v[1], v[2], v[3], v[4])
+                P.ops[o.id] = o
+                P.order.append(o)
+                P.next_op = max(P.next_op, o.id + 1)
+            else:
+                P.extra.append(line)
+        for o in P.order:
+            c, depth = o.ctx, 0
+            while c >= 1000 and (c - 1000) in P.ops:
+                c = P.ops[c - 1000].ctx
+                depth += 1
+            o.meta.update(thread=c, depth=depth, q=o.a)
+            if o.ctx >= 1000 and (o.ctx - 1000) in P.ops:
+                par = P.ops[o.ctx - 1000]
+                o.meta.update(in_item=True, onq=par.a)
+            else:
+                o.meta.update(in_item=False, onq=-1)
+        return P
+
     # ---- static structure helpers for oracles
     def bottom(self, q):
         """bottom-most custom queue of q's hierarchy (the one targeting a root/global queue)"""
@@ -174,7 +223,7 @@ class Runner:
         self.env["ASAN_OPTIONS"] = "detect_leaks=%d:abort_on_error=1:halt_on_error=1:allocator_may_return_null=1" % (1 if asan == "leak" else 0)
         self.env["LSAN_OPTIONS"] = "exitcode=23"
 
-    def run(self, text, active_cpus=1, budget_s=60.0, extra_args=()):
+    def run(self, text, active_cpus=1, budget_s=60.0, extra_args=(), window=None):
         """returns (outcome, returncode, History|None, output)"""
         with open(self.prog_path, "w") as f:
             f.write(text)
@@ -192,7 +241,7 @@ class Runner:
             p = subprocess.Popen([self.exe, self.prog_path, self.shm_path, str(self.cap)] + list(extra_args), env=self.env,
                                  stdout=out, stderr=subprocess.STDOUT, preexec_fn=pre)
             shm = self.shm_path
-            outcome = proc.watch(p, budget_s, progress=lambda: _peek(shm)[0], fast_wait=2.0,
+            outcome = proc.watch(p, budget_s, progress=lambda: _peek(shm)[0], fast_wait=2.0, window=window,
                                  idle_ok=lambda: (_peek(shm)[1] == 0 and _peek(shm)[2] == 0))
         hist = load_history(self.shm_path) if os.path.exists(self.shm_path) else None
         output = ""
